@@ -282,7 +282,9 @@ def allowList : List Allowed := [
   { file := "SRC/sp_ienv.c", name := "slu_verif_ienv", cond := hookReadOnly,
     why := "hook H1 (tuning override), exists only under SLU_VERIF; read by sp_ienv, written only by the harness between calls (never while library threads run)" },
   { file := "SRC/sp_ienv.c", name := "slu_verif_pivot_hook", cond := hookReadOnly,
-    why := "hook H2 (pivot event callback pointer), exists only under SLU_VERIF; read by [sdcz]pivotL, set by the harness before threads start" }
+    why := "hook H2 (pivot event callback pointer), exists only under SLU_VERIF; read by [sdcz]pivotL, set by the harness before threads start" },
+  { file := "SRC/sp_ienv.c", name := "slu_verif_ilu_pivot_hook", cond := hookReadOnly,
+    why := "hook H2 (pivot event callback pointer), exists only under SLU_VERIF; read by ilu_[sdcz]pivotL, set by the harness before threads start" }
 ]
 
 def entryOk (o : StaticObj) : Bool :=
